@@ -1,4 +1,4 @@
-use std::{fmt, io};
+use std::{collections::VecDeque, fmt, io};
 
 use bitflags::bitflags;
 use bytes::BytesMut;
@@ -31,6 +31,13 @@ pub struct Codec {
     // encoder part
     flags: Flags,
     encoder: encoder::MessageEncoder<Response<()>>,
+
+    /// Response context (HEAD request, protocol version, connection type) of every decoded
+    /// request whose response has not been encoded yet, oldest first.
+    ///
+    /// Pipelined request heads can be decoded while an earlier response is still outstanding, so
+    /// this cannot be a single "last decoded request" slot.
+    pending: VecDeque<(bool, Version, ConnectionType)>,
 }
 
 impl Default for Codec {
@@ -66,6 +73,7 @@ impl Codec {
             version: Version::HTTP_11,
             conn_type: ConnectionType::Close,
             encoder: encoder::MessageEncoder::default(),
+            pending: VecDeque::new(),
         }
     }
 
@@ -121,15 +129,17 @@ impl Decoder for Codec {
             })
         } else if let Some((req, payload)) = self.decoder.decode(src)? {
             let head = req.head();
-            self.flags.set(Flags::HEAD, head.method == Method::HEAD);
-            self.version = head.version;
-            self.conn_type = head.connection_type();
+            let mut conn_type = head.connection_type();
 
-            if self.conn_type == ConnectionType::KeepAlive
+            if conn_type == ConnectionType::KeepAlive
                 && !self.flags.contains(Flags::KEEP_ALIVE_ENABLED)
             {
-                self.conn_type = ConnectionType::Close
+                conn_type = ConnectionType::Close
             }
+
+            // remembered until the response to this request is encoded
+            self.pending
+                .push_back((head.method == Method::HEAD, head.version, conn_type));
 
             match payload {
                 PayloadType::None => self.payload = None,
@@ -156,6 +166,18 @@ impl Encoder<Message<(Response<()>, BodySize)>> for Codec {
     ) -> Result<(), Self::Error> {
         match item {
             Message::Item((mut res, length)) => {
+                // Responses are written in request order: this one answers the oldest request
+                // still waiting for its response. A response that answers no decoded request (a
+                // parse error, a request timeout) closes the connection.
+                let (head, version, conn_type) = self.pending.pop_front().unwrap_or((
+                    false,
+                    Version::HTTP_11,
+                    ConnectionType::Close,
+                ));
+                self.flags.set(Flags::HEAD, head);
+                self.version = version;
+                self.conn_type = conn_type;
+
                 // set response version
                 res.head_mut().version = self.version;
 
